@@ -183,11 +183,17 @@ class Interval(Operation):
 
     def get_string(self, *args, **kwargs):
 
+        from mindsdb_sql.parser.ast.select.constant import Constant
+        import re
+
+        # amount and unit are kept as one text. The last word is printed as the unit when it can be one
+        # (INTERVAL '1' day); everything before it is the quoted amount, so that INTERVAL 'a b' c keeps its
+        # grouping (quoting only the first word printed INTERVAL 'a' b c); otherwise the whole text is quoted
         arg = self.args[0]
-        items = arg.split(' ', maxsplit=1)
-        # quote first element
-        items[0] = f"'{items[0]}'"
-        return "INTERVAL " + " ".join(items)
+        items = arg.rsplit(' ', maxsplit=1)
+        if len(items) == 2 and items[0] != '' and re.fullmatch(r'[a-zA-Z_][a-zA-Z_0-9]*', items[1]):
+            return f"INTERVAL {Constant(items[0]).to_string()} {items[1]}"
+        return f"INTERVAL {Constant(arg).to_string()}"
 
     def to_tree(self, *args, level=0, **kwargs):
         return self.get_string( *args, **kwargs)
